@@ -1,12 +1,11 @@
 //@ unit buf_ensureCapacity
 //@ props C01
 //@ kind P
-//@ def quick MAXCAP=6
-//@ def thorough MAXCAP=24
 //@ enforce XMLBuffer_ensureCapacity
 //@ replace XMLBufferFullHandler_bufferFull
+//@ cbmc all --unsigned-overflow-check
 //@ entry h_buf_ensureCapacity
-//@ note loop-free function, proved for every fIndex / extraNeeded with fIndex + extraNeeded <= 2^40 (no size computation wraps below that) and every capacity; heap: fBuffer is a dynamic object of (fCapacity+1) XMLCh or more
+//@ note loop-free function, proved for every capacity and every fIndex + extraNeeded <= 2^40: no size computation wraps, every access in bounds, RI re-established, frame respected; content clauses are in unit buf_content (W, bounded sizes)
 //@ note MemoryManager::allocate never fails in the model (OutOfMemoryException not modelled); XMLBufferFullHandler::bufferFull is contract-only (may lower fIndex arbitrarily, any return value)
 #define VERIF_DEFINE_GHOSTS
 #include "verif_prelude.h"
@@ -25,10 +24,11 @@ void h_buf_ensureCapacity(void)
 {
   XMLSize_t extra, alloc_extra;
   VERIF_INPUT(SELF); VERIF_INPUT(extra); VERIF_INPUT(GA); VERIF_INPUT(alloc_extra);
-  VERIF_ASSUME(fCapacity <= MAXCAP && alloc_extra <= 2 && extra <= MAXCAP && fFullSize <= 3 * MAXCAP);
+  VERIF_ASSUME(BUF_SIZE_BOUND && alloc_extra <= 16);
   /* setFullHandler may lower fCapacity below the allocated size: the object has (fCapacity + 1 + alloc_extra) characters */
   fBuffer = malloc((fCapacity + 1 + alloc_extra) * sizeof(XMLCh));
-  VERIF_ASSUME(fBuffer != 0);
+  VERIF_INPUT(NEXTSIZE); NEXTBUF = malloc(NEXTSIZE); NEXTUSED = 0;
+  VERIF_ASSUME(fBuffer != 0 && NEXTBUF != 0);
   verif_thrown = 0;
   XMLBuffer_ensureCapacity(extra);
   VERIF_CANARY("after call");
